@@ -39,11 +39,11 @@ Section HM7.
 
   Lemma abs_of_canon : forall ns, abs_of (map canon_node ns) = abs_of ns.
   Proof.
-    induction ns as [|a ns IH]; [reflexivity|]. unfold ProofsHM2.abs_of in *. cbn [map filter].
+    induction ns as [|a ns IH]; [reflexivity|]. unfold Model.abs_of in *. cbn [map filter].
     rewrite (canon_filled K V). destruct (nfilled a); cbn [map]; [rewrite (canon_key K V), (canon_val K V)|]; congruence.
   Qed.
   Lemma abs_canon : forall m, hm_abs (canon m) = hm_abs m.
-  Proof. intros. unfold ProofsHM2.hm_abs. cbn [Model.canon Model.hnodes]. apply abs_of_canon. Qed.
+  Proof. intros. unfold Model.hm_abs. cbn [Model.canon Model.hnodes]. apply abs_of_canon. Qed.
 
   Lemma clear_canon : forall m, canon (hm_clear K V kdflt vdflt m) = hm_clear K V kdflt vdflt (canon m).
   Proof.
@@ -94,7 +94,7 @@ Section HM7.
      (2 ^ 62 < Z.of_nat (hop_request K V o (hsize m)))%Z) \/
     exists m' r, hm_step o m = Ok (m', r) /\ hm_inv m' /\ fm_step o (canon m) = Ok (canon m', r).
   Proof.
-    intros o m I. destruct o; cbn [Model.hm_step Model.fm_step hop_request].
+    intros o m I. destruct o; cbn [Model.hm_step Model.fm_step Model.hop_request].
     - (* set *)
       destruct (hm_set_ok K V kdflt vdflt keqb khash keqb_sym keqb_trans hash_coh m k v I) as [(-> & B & ->)|(m' & -> & I' & _ & ->)];
         [left; auto|right]. cbn [rbind]. eauto.
@@ -137,20 +137,27 @@ Section HM7.
   Qed.
 
   (* ---- whole histories *)
-  Fixpoint fm_run (ops : list (hop K V)) (m : hmap) : res (hmap * list (hret K V)) :=
-    match ops with
-    | [] => Ok (m, [])
-    | o :: tl => p <- fm_step o m ;; q <- fm_run tl (fst p) ;; Ok (fst q, snd p :: snd q)
-    end.
+  Notation fm_run := (fm_run K V kdflt vdflt keqb).
 
   Theorem hm_run_flat : forall ops m, hm_inv m ->
     (hm_run ops m = Trap TrapOverflow /\ fm_run ops (canon m) = Trap TrapOverflow) \/
     exists m' rs, hm_run ops m = Ok (m', rs) /\ hm_inv m' /\ fm_run ops (canon m) = Ok (canon m', rs).
   Proof.
-    induction ops as [|o tl IH]; intros m I; cbn [ProofsHM5.hm_run fm_run].
+    induction ops as [|o tl IH]; intros m I; cbn [Model.hm_run Model.fm_run].
     - right. eauto.
     - destruct (hm_step_flat o m I) as [(-> & -> & _)|(m1 & r & -> & I1 & ->)]; [left; auto|]. cbn [rbind fst snd].
       destruct (IH m1 I1) as [(-> & ->)|(m2 & rs & -> & I2 & ->)]; [left; auto|right]. cbn [rbind fst snd]. eauto.
+  Qed.
+
+  (* below 2^50 bindings + operations (and reserve/rehash counts) there is no Overflow branch at all *)
+  Theorem hm_run_flat_small : forall ops m, hm_inv m ->
+    (Z.of_nat (length (hm_abs m) + length ops) < 2 ^ 50)%Z ->
+    (forall o, In o ops -> (Z.of_nat (hop_count K V o) < 2 ^ 50)%Z) ->
+    exists m' rs, hm_run ops m = Ok (m', rs) /\ hm_inv m' /\ fm_run ops (canon m) = Ok (canon m', rs).
+  Proof.
+    intros ops m I Hs Hc. destruct (hm_run_flat ops m I) as [(E & _)|R]; [|exact R]. exfalso.
+    apply (hm_run_no_overflow K V kdflt vdflt keqb khash keqb_sym keqb_trans hash_coh ops m (hm_abs m)); try assumption.
+    split; [assumption|apply Permutation_refl].
   Qed.
 
   (* what [canon] keeps: everything an operation can report *)
@@ -159,7 +166,7 @@ Section HM7.
     hm_bucketcount K V m1 = hm_bucketcount K V m2 /\ hfree m1 = hfree m2.
   Proof.
     intros m1 m2 E. unfold Model.canon in E. inversion E as [[Hb Hn Hs Hf]].
-    split; [rewrite <- (abs_canon m1), <- (abs_canon m2); unfold ProofsHM2.hm_abs; cbn [Model.canon Model.hnodes]; rewrite Hn; reflexivity|].
+    split; [rewrite <- (abs_canon m1), <- (abs_canon m2); unfold Model.hm_abs; cbn [Model.canon Model.hnodes]; rewrite Hn; reflexivity|].
     split; [unfold hm_len; congruence|]. split.
     - unfold hm_capacity. rewrite <- (map_length canon_node (hnodes m1)), Hn, map_length. reflexivity.
     - split; [|congruence]. unfold hm_bucketcount.
@@ -194,5 +201,20 @@ Section HM7b.
     - left. auto.
     - right. assert (canon K V m1' = canon K V m2' /\ rs1 = rs2) as (Ec & ->) by (split; congruence).
       exists m1', m2', rs2. auto.
+  Qed.
+
+  Theorem hm_hash_independent_small : forall ops m1 m2,
+    hm_inv K V keqb h1 m1 -> hm_inv K V keqb h2 m2 -> canon K V m1 = canon K V m2 ->
+    (Z.of_nat (length (hm_abs K V m1) + length ops) < 2 ^ 50)%Z ->
+    (forall o, In o ops -> (Z.of_nat (hop_count K V o) < 2 ^ 50)%Z) ->
+    exists m1' m2' rs,
+      hm_run K V kdflt vdflt keqb h1 ops m1 = Ok (m1', rs) /\
+      hm_run K V kdflt vdflt keqb h2 ops m2 = Ok (m2', rs) /\
+      hm_inv K V keqb h1 m1' /\ hm_inv K V keqb h2 m2' /\ canon K V m1' = canon K V m2'.
+  Proof.
+    intros ops m1 m2 I1 I2 E Hs Hc.
+    destruct (hm_hash_independent_exact ops m1 m2 I1 I2 E) as [(E1 & _)|R]; [|exact R]. exfalso.
+    apply (hm_run_no_overflow K V kdflt vdflt keqb h1 keqb_sym keqb_trans h1_coh ops m1 (hm_abs K V m1)); try assumption.
+    split; [assumption|apply Permutation_refl].
   Qed.
 End HM7b.
